@@ -130,34 +130,47 @@ def push_path(ctx):
     ctx.ob(R, '_execute_script|returns-pushed-entry', ok, ex.node,
            'the entry returned is not the one pushed for this script')
     pp = F.fn(B + 'StackContext.push_path')
-    ys = [n for n in walk_no_nested(pp.node) if isinstance(n, ast.Yield)]
+    # the context manager in either spelling (generator with try/finally,
+    # or an object with __enter__/__exit__)
+    cm = F.context_manager(pp)
+    Q.require(cm is not None, 'push_path is not a context manager')
+    aps = [e for e in cm['enter'] if e.name == 'append' and
+           has(e.recv(), 'self', 'path_stack')]
+    all_aps = aps
+    if cm['form'] == 'generator':
+        all_aps = [e for e in F.effects(pp, lambda e: e.name == 'append',
+                                        depth=1)
+                   if has(e.recv(), 'self', 'path_stack')]
     pushed = set()
-    for e in F.effects(pp, lambda e: e.name == 'append', depth=0):
-        if has(e.recv(), 'self', 'path_stack'):
-            pushed |= {a for a in direct(e.arg(0)) if 'PathEntry(' in a}
-    ok = bool(ys) and all(
-        y.value is not None and (has(F.atoms(y.value, pp), 'self',
-                                     'path_stack[-1]') or
-                                 direct(F.atoms(y.value, pp)) & pushed)
-        for y in ys)
-    pops = [e for e in F.effects(pp, lambda e: e.name == 'pop', depth=0)
-            if has(e.recv(), 'self', 'path_stack')]
-    ok = ok and bool(pops) and all(
-        _in_finally_of_try_with(e.call, pp, lambda x: isinstance(
-            x, ast.Yield)) for e in pops) and all(
+    for e in aps:
+        pushed |= {a for a in direct(e.arg(0)) if 'PathEntry(' in a}
+    ok = bool(cm['value']) and (
+        has(cm['value'], 'self', 'path_stack[-1]') or
+        bool(direct(cm['value']) & pushed))
+    pops = [e for e in cm['exit'] if e.name == 'pop' and
+            has(e.recv(), 'self', 'path_stack')]
+    all_pops = pops
+    if cm['form'] == 'generator':
+        all_pops = [e for e in F.effects(pp, lambda e: e.name == 'pop',
+                                         depth=1)
+                    if has(e.recv(), 'self', 'path_stack')]
+    ok = ok and bool(pops) and len(all_pops) == len(pops) and all(
         not e.call.args for e in pops)
     ctx.ob(R, 'push_path|yield-top-pop-in-finally', ok, pp.node,
            'the path stack is not restored when a script raises (or the '
            'entry handed to the script is not the top of the stack)')
-    aps = [e for e in F.effects(pp, lambda e: e.name == 'append', depth=0)
-           if has(e.recv(), 'self', 'path_stack')]
-    ok = bool(aps) and all(has_call(e.arg(0), 'PathEntry') and param_of(
-        e.arg(0), 'path') for e in aps) and all(
-        F.before(pp, lambda e: e.name == 'append' and has(
-            e.recv(), 'self', 'path_stack'), y) for y in ys)
+    ok = bool(aps) and len(all_aps) == len(aps) and all(
+        has_call(e.arg(0), 'PathEntry') and param_of(e.arg(0), 'path')
+        for e in aps)
     ctx.ob(R, 'push_path|fresh-entry', ok, pp.node,
            'a new entry (with empty exports) is not pushed per script')
-    pe = F.fn(B + 'StackContext.PathEntry.__init__')
+    # the entry class, nested in StackContext or at module level (possibly
+    # private, re-exported as StackContext.PathEntry)
+    pcs = [c for c in ctx.repo.classes.values()
+           if c.module.name == B.rstrip(':') and
+           c.name.lstrip('_') == 'PathEntry']
+    Q.require(len(pcs) == 1, 'anchor class missing: PathEntry of ' + B)
+    pe = F.fn(pcs[0].fq + '.__init__')
     v = F.stored(pe, 'exports')
     ok = v is not None and any(a.startswith('alloc:') for a in v) and \
         not any(a.startswith('param:') for a in v)
@@ -184,7 +197,9 @@ def push_path(ctx):
     exf = F.fn('bfg9000.builtins.core:export')
     ok = any(has(e.recv(), 'context.exports') and param_of(
         e.all_args(), 'kwargs')
-        for e in F.effects(exf, lambda e: e.name == 'update', depth=0))
+        for e in F.effects(exf, lambda e: e.name == 'update', depth=0)) or \
+        any(has(t, 'context.exports') and param_of(v, 'kwargs')
+            for t, v, n in F.stores(exf))          # exports[k] = v loop
     ctx.ob(R, 'export|innermost-entry', ok, exf.node,
            'export() does not write into the current entry\'s exports')
     ep = F.fn(B + 'StackContext.exports')
